@@ -6,31 +6,40 @@ ROOT = "/verif"
 def sh(cmd, **kw):
     return subprocess.run(cmd, shell=True, capture_output=True, text=True, **kw)
 ids = sys.argv[1:] or sorted(os.listdir(f"{ROOT}/seeded"))
+import fcntl
+os.makedirs(f"{ROOT}/work", exist_ok=True)
+_lock = open(f"{ROOT}/work/.repo.lock", "w")
+os.environ["VERIF_LOCK_HELD"] = "1"
 for sid in ids:
-    d = f"{ROOT}/seeded/{sid}"
-    meta = json.load(open(f"{d}/meta.json"))
-    if sh("git -C /repo status --porcelain --untracked-files=no").stdout.strip():
-        print("/repo dirty, abort"); sys.exit(2)
-    r = sh(f"git -C /repo apply {d}/patch.diff")
-    if r.returncode != 0:
-        r = sh(f"git -C /repo apply --3way {d}/patch.diff")
-    if r.returncode != 0:
-        print(sid, "PATCH DOES NOT APPLY", r.stderr[:300]); sh("git -C /repo reset -q --hard HEAD"); continue
-    checks = meta.get("checks", [meta["property"]])
-    det = {}
-    for c in checks:
-        for tier in ("quick", "thorough"):
-            t0 = time.time()
-            o = sh(f"cd {ROOT} && ./check {c} --tier {tier}")
-            out = o.stdout + o.stderr
-            nviol = out.count("\nVIOLATION ") + (1 if out.startswith("VIOLATION ") else 0)
-            first = next((l.strip() for l in out.splitlines() if l.strip().startswith("key:")), "")
-            det[f"{c}/{tier}"] = {"exit": o.returncode, "violation_lines": nviol, "first": first[:400], "wall_s": round(time.time() - t0, 1)}
-            print(sid, c, tier, "exit", o.returncode, "violations", nviol, first[:160])
-            if o.returncode == 1:
-                break
-    meta["detection"] = det
-    meta["detected_by"] = [k for k, v in det.items() if v["exit"] == 1]
-    json.dump(meta, open(f"{d}/meta.json", "w"), indent=1)
+  fcntl.flock(_lock, fcntl.LOCK_EX)
+  try:
+      d = f"{ROOT}/seeded/{sid}"
+      meta = json.load(open(f"{d}/meta.json"))
+      if sh("git -C /repo status --porcelain --untracked-files=no").stdout.strip():
+          print("/repo dirty, abort"); sys.exit(2)
+      r = sh(f"git -C /repo apply {d}/patch.diff")
+      if r.returncode != 0:
+          r = sh(f"git -C /repo apply --3way {d}/patch.diff")
+      if r.returncode != 0:
+          print(sid, "PATCH DOES NOT APPLY", r.stderr[:300]); sh("git -C /repo reset -q --hard HEAD"); continue
+      checks = meta.get("checks", [meta["property"]])
+      det = {}
+      for c in checks:
+          for tier in ("quick", "thorough"):
+              t0 = time.time()
+              o = sh(f"cd {ROOT} && ./check {c} --tier {tier}")
+              out = o.stdout + o.stderr
+              nviol = out.count("\nVIOLATION ") + (1 if out.startswith("VIOLATION ") else 0)
+              first = next((l.strip() for l in out.splitlines() if l.strip().startswith("key:")), "")
+              det[f"{c}/{tier}"] = {"exit": o.returncode, "violation_lines": nviol, "first": first[:400], "wall_s": round(time.time() - t0, 1)}
+              print(sid, c, tier, "exit", o.returncode, "violations", nviol, first[:160])
+              if o.returncode == 1:
+                  break
+      meta["detection"] = det
+      meta["detected_by"] = [k for k, v in det.items() if v["exit"] == 1]
+      json.dump(meta, open(f"{d}/meta.json", "w"), indent=1)
+      sh("git -C /repo reset -q --hard HEAD")
+  finally:
     sh("git -C /repo reset -q --hard HEAD")
+    fcntl.flock(_lock, fcntl.LOCK_UN)
 print(sh("git -C /repo status --short").stdout)
